@@ -14,3 +14,25 @@ package types
 //@   requires t != nil
 //@   ensures infix_operands_parenthesised_as_needed: emittedHere("(") == needsLeft(t) + needsRight(t) && emittedHere(")") == needsLeft(t) + needsRight(t)
 //@   ensures elementwise_tokens: (t.Operator == dsl.BinaryOpAdd ==> emittedHere("+") == 1) && (t.Operator == dsl.BinaryOpSub ==> emittedHere("-") == 1) && (t.Operator == dsl.BinaryOpMul ==> emittedHere(".*") == 1) && (t.Operator == dsl.BinaryOpDiv ==> emittedHere("./") == 1) && (t.Operator == dsl.BinaryOpPow ==> emittedHere("^") == 1)
+
+// Output and diagnostics may not depend on the iteration order of a Go map (C12): decided per `range` over a map.
+//@ map-order C12 package
+
+// `x as T` in a computed field: the value is wrapped in the MATLAB class of T as listed in docs/matlab/language.md
+// ("Primitive Types": int8 -> int8, int16 -> int16, ..., float -> single, double -> double).
+//@ spec func targetPrim(t dsl.Type) dsl.PrimitiveDefinition = t.(*dsl.SimpleType).ResolvedDefinition.(dsl.PrimitiveDefinition)
+//@ spec func isPrimT(t dsl.Type) bool = typeof(t) == *dsl.SimpleType && t.(*dsl.SimpleType) != nil && typeof(t.(*dsl.SimpleType).ResolvedDefinition) == dsl.PrimitiveDefinition
+//@ func writeTypeConversion@getWrapper
+//@   property C19
+//@   ensures int8_is_int8: isPrimT(t) && targetPrim(t) == dsl.Int8 ==> result0 == "int8(" && result1 == ")"
+//@   ensures uint8_is_uint8: isPrimT(t) && targetPrim(t) == dsl.Uint8 ==> result0 == "uint8(" && result1 == ")"
+//@   ensures int16_is_int16: isPrimT(t) && targetPrim(t) == dsl.Int16 ==> result0 == "int16(" && result1 == ")"
+//@   ensures uint16_is_uint16: isPrimT(t) && targetPrim(t) == dsl.Uint16 ==> result0 == "uint16(" && result1 == ")"
+//@   ensures int32_is_int32: isPrimT(t) && targetPrim(t) == dsl.Int32 ==> result0 == "int32(" && result1 == ")"
+//@   ensures uint32_is_uint32: isPrimT(t) && targetPrim(t) == dsl.Uint32 ==> result0 == "uint32(" && result1 == ")"
+//@   ensures int64_is_int64: isPrimT(t) && targetPrim(t) == dsl.Int64 ==> result0 == "int64(" && result1 == ")"
+//@   ensures uint64_and_size_are_uint64: isPrimT(t) && (targetPrim(t) == dsl.Uint64 || targetPrim(t) == dsl.Size) ==> result0 == "uint64(" && result1 == ")"
+//@   ensures float_is_single: isPrimT(t) && targetPrim(t) == dsl.Float32 ==> result0 == "single(" && result1 == ")"
+//@   ensures double_is_double: isPrimT(t) && targetPrim(t) == dsl.Float64 ==> result0 == "double(" && result1 == ")"
+//@   ensures complexfloat_is_complex_single: isPrimT(t) && targetPrim(t) == dsl.ComplexFloat32 ==> result0 == "complex(single(" && result1 == "))"
+//@   ensures complexdouble_is_complex_double: isPrimT(t) && targetPrim(t) == dsl.ComplexFloat64 ==> result0 == "complex(double(" && result1 == "))"
